@@ -62,6 +62,7 @@ theorem schemeOf_build (sch rest : Str) (h1 : sch ≠ []) (h2 : sch.all isScheme
 /-- A control URL written as an absolute path resolves to the device URL's scheme and authority
     followed by that path, and the authority of the result (the `Host` header) is the device's. -/
 theorem urljoin_abs_path (base sch r ref : Str) (hb : schemeOf base = some (sch, r))
+    (hlow : lowerScheme sch = true)
     (c : Char) (t : Str) (href : ref = '/' :: c :: t) (hc : c ≠ '/') (hp : plainPath ref = true) :
     urljoin base ref = some (sch ++ "://".toList ++ netloc base ++ ref)
     ∧ netloc (sch ++ "://".toList ++ netloc base ++ ref) = netloc base := by
@@ -78,8 +79,10 @@ theorem urljoin_abs_path (base sch r ref : Str) (hb : schemeOf base = some (sch,
     · rfl
   constructor
   · subst href
+    have hsl : schemeLike ('/' :: c :: t) = false := by
+      simp [schemeLike, List.takeWhile]
     unfold urljoin
-    simp only [hb, hnoscheme, hp]
+    simp only [hb, hnoscheme, hp, hlow, hsl]
     simp [hc]
   · have hnl : netloc base = r.takeWhile (!isStop ·) := by simp [netloc, hb]
     generalize netloc base = N at hnl ⊢
